@@ -61,6 +61,8 @@ CATALOGUE = [
     '(declare-const v (_ FloatingPoint 3 5))\n(assert (fp.lt v (fp #b0 #b111 #x0)))\n',
     # one symbol declared twice, used in quoted form
     '(declare-const x Int)\n(declare-const x Int)\n(assert (= |x| |x|))\n',
+    '(declare-const x Int)\n(declare-const |y z| Int)\n(assert (= |x| |y z|))\n',
+    '(declare-const |x| Int)\n(declare-const y Int)\n(assert (= x y))\n(assert (> |x| y))\n',
     # an equality between two copies of a term: a fresh variable for one of
     # them can be eliminated again
     '(declare-const a Int)\n(assert (= (+ a 1) (+ a 1)))\n',
